@@ -11,8 +11,11 @@
 (*     square-rooted quantities are carried squared (rmse2, cvrmse2, ...)  *)
 (*  in.kind = "gate":  [cv, pn] each in {"none", "low", "mid", "high", "eqown"} *)
 (*     out = [res, poor]   the hourly poor-fit decision                    *)
-(*  in.kind = "stored": [fam, name]  a real fit                            *)
-(*     out = [res, same]   stored metrics = metrics of predict(baseline)   *)
+(*  in.kind = "stored": [fam, name, prior]  a real fit (prior: the meter   *)
+(*        the same model object was fitted on before, or "none")           *)
+(*     out = [res, same, gateOk, asFresh]   stored metrics = metrics of    *)
+(*        predict(baseline); asFresh: the reported statistics equal those  *)
+(*        of a fresh model object fitted on the same data                  *)
 (***************************************************************************)
 EXTENDS Integers, Sequences, FiniteSets, TLC, Rat, SequencesExt
 
@@ -99,6 +102,7 @@ Clauses(in, out) ==
     [] in.kind = "stored" ->
       << <<"FitReturns", out.res = "ok">>,
          <<"StoredHourlyMetricsAreThoseOfPredictBaseline", (out.res = "ok" /\ in.fam = "hourly") => out.same>>,
-         <<"PoorFitDisqualificationIsTheGateOnTheReportedStatistic", out.res = "ok" => out.gateOk>> >>
+         <<"PoorFitDisqualificationIsTheGateOnTheReportedStatistic", out.res = "ok" => out.gateOk>>,
+         <<"ReportedStatisticsAreThoseOfTheLastFit", (out.res = "ok" /\ in.prior # "none") => out.asFresh>> >>
 Failing(in, out) == LET c == Clauses(in, out) IN {c[k][1] : k \in {k \in 1..Len(c) : ~c[k][2]}}
 =============================================================================
